@@ -288,6 +288,50 @@ fn main() {
             println!("events={}", out.lines);
             out.finish();
         }
+        "prop-replay" => {
+            // DefaultPropertyHandler over the real converter and the flow manager as updater
+            use sentinel_core::datasource::{DefaultPropertyHandler, PropertyHandler};
+            let mut out = Out::create(a.get("out"));
+            for b in read_behaviours(a.get("in")) {
+                let mut h = DefaultPropertyHandler::<flow::Rule>::new(rule_json_array_parser::<flow::Rule>, |rules| Ok(flow::load_rules(rules)));
+                for ev in &b {
+                    let mut ev = ev.clone();
+                    match s(&ev, "e") {
+                        "reset" => {
+                            flow::clear_rules();
+                            ev["ok"] = json!(true);
+                        }
+                        "handle" => {
+                            let id = |x: &str| x.to_string();
+                            let doc: Option<String> = match s(&ev, "kind") {
+                                "none" => None,
+                                "bad" => Some("[{\"resource\": 17".to_string()),
+                                _ => {
+                                    let rules: Vec<flow::Rule> = ev["rules"].as_array().unwrap().iter().map(|d| world::flow_rule(d, &id)).collect();
+                                    Some(serde_json::to_string(&rules).unwrap())
+                                }
+                            };
+                            let r = guarded(|| std::sync::Arc::get_mut(&mut h).unwrap().handle(doc.as_ref()));
+                            ev["ret"] = match r {
+                                Ok(Ok(b)) => json!(b.to_string()),
+                                Ok(Err(_)) => json!("err"),
+                                Err(p) => {
+                                    ev["panic"] = json!(p);
+                                    json!("panic")
+                                }
+                            };
+                            let mut ids: Vec<String> = flow::get_rules().iter().map(|r| r.id.clone()).collect();
+                            ids.sort();
+                            ev["after"] = json!(ids);
+                        }
+                        other => panic!("unknown event {}", other),
+                    }
+                    out.put(&ev);
+                }
+            }
+            println!("events={}", out.lines);
+            out.finish();
+        }
         "codec-fuzz" => {
             let mut rng = rng(a.num("seed", 1));
             println!("{}", fuzz(&mut rng, a.num("n", 300) as usize));
